@@ -141,6 +141,7 @@ Record WF (h : heap) (F : forest) : Prop := mkWF {
   wf_owned_nodup : NoDup (owned F);                  (* node blocks and owned strings pairwise distinct *)
   wf_owned_live : forall b, b ∈ owned F -> b ∈ h_live h;
   wf_owned_lib : forall b, b ∈ owned F -> h_own h !! b = Some Lib;
+  wf_fresh : forall b, b ∈ owned F -> (b < h_next h)%positive;   (* identities come from the allocator *)
   wf_ref : Forall ref_ok (flat F)
 }.
 
